@@ -1,6 +1,6 @@
 """C13 - the static file server never serves anything outside its directory.
 
-A temp tree  top/{public/{index.html,a.txt,.hidden,sub/b.txt}, secret.txt, public-evil/x.txt}  with unique file
+A temp tree  top/{public/{index.html,a.txt,.hidden,sub/b.txt}, secret.txt, public.txt, public-evil/x.txt}  with unique file
 contents; the static root is top/public.  Request paths are concatenations of tokens from an alphabet of existing
 names, '/', '//', '.', '..', '%2e', '%2e%2e', '%2f', '%00', '?', '#'.  All paths of <= 4 tokens are enumerated
 (<= 5 in the thorough tier), longer ones are sampled.
@@ -28,7 +28,7 @@ ID = 'C13'
 LEVEL = 'exploration'
 ALL_EXHAUSTIVE = False
 TOKENS = ['/', '//', '.', '..', '%2e', '%2e%2e', '%2f', '%00', '?', '#', 'a.txt', 'sub', 'b.txt', 'index.html', '.hidden',
-          'secret.txt', 'public-evil', 'x.txt', 'public', 'nonexistent']
+          'secret.txt', 'public-evil', 'x.txt', 'public', 'public.txt', 'nonexistent']
 RULE = ('paths = "/" + concatenation of tokens from %r; every path of <= 4 tokens (quick) / <= 5 tokens (thorough) is '
         'enumerated, longer ones (<= 12 tokens) are drawn by Hypothesis; --min-compression-length in {0, 20, 10^6}. '
         'Non-trivial: the path contains ".." and its target exists outside the root, or the answer is 200; distinct by path.' % (TOKENS,))
@@ -42,6 +42,7 @@ FILES = {
     'public/sub/b.txt': b'B-TXT-UNIQUE-5d2e ' + b'b' * 300,
     'secret.txt': b'SECRET-UNIQUE-e1f0-must-never-leave',
     'public-evil/x.txt': b'EVIL-UNIQUE-4c4c-sibling-directory',
+    'public.txt': b'SIBLING-FILE-UNIQUE-8a8a-name-extends-the-root-name',
 }
 _T: Dict[str, Any] = {}
 _FLAGS: Dict[Any, Any] = {}
